@@ -100,7 +100,7 @@ theorem process_total (e : Enc) (src : NoteSrc) (h : SrcOk src) (hb : src.size.t
       ∀ p ∈ pos, ∃ a, src.data = some a ∧ Good e a src.size.toNat p.toNat := by
   obtain ⟨data, size⟩ := src
   unfold process
-  rw [walk_empty_eq]
+  rw [walk_empty_eq, NoteTie.walk_start]
   cases data with
   | none => exact ⟨[], by simp [pure, Except.pure], by simp, by simp⟩
   | some a =>
@@ -214,7 +214,7 @@ theorem encodeBuf_spec (e : Enc) (n : Spec.Note) (hf : n.Fits) (dp : Option Byte
   -- descriptor and its padding
   have hdp : descPart dp (BitVec.ofNat 32 n.desc.length) = .ok (Spec.padTo4 n.desc) := by
     unfold descPart
-    rw [add_has_desc_eq, ofNat32_toNat h3, padTo4_eq]
+    rw [NoteTie.desc_len, add_has_desc_eq, ofNat32_toNat h3, padTo4_eq]
     by_cases hd0 : n.desc.length = 0
     · have hnil : n.desc = [] := List.eq_nil_of_length_eq_zero hd0
       simp [hnil, pure, Except.pure]
@@ -239,7 +239,7 @@ theorem encodeBuf_spec (e : Enc) (n : Spec.Note) (hf : n.Fits) (dp : Option Byte
           simp [hz, pure, Except.pure]
       simp only [hpad, slice_self, bind, Except.bind, pure, Except.pure, ne_eq]
   unfold encodeBuf Spec.encodeNote
-  simp only [hnp, hdp, hnl, bind, Except.bind, pure, Except.pure, ofNat32_toNat h1, ofNat32_toNat h3,
+  simp only [NoteTie.descsz_len, NoteTie.type_len, NoteTie.nul_bytes, hnp, hdp, hnl, bind, Except.bind, pure, Except.pure, ofNat32_toNat h1, ofNat32_toNat h3,
     wrField_eq e 4 _ (Or.inr (Or.inr (Or.inl rfl)))]
   rw [padTo4_eq (n.name ++ [0])]
   simp only [List.length_append, List.length_cons, List.length_nil, Nat.zero_add, List.append_assoc]
@@ -458,7 +458,7 @@ theorem walker_positions (e : Enc) (src : NoteSrc) (h : SrcOk src) (hs : src.siz
   have hge := encodeNotes_length_ge e ns
   have hlen := congrArg List.length hv
   unfold process
-  rw [walk_empty_eq]
+  rw [walk_empty_eq, NoteTie.walk_start]
   cases data with
   | none =>
     simp only [NoteSrc.view, Option.getD_none, List.take_nil, List.length_nil] at hlen
@@ -688,7 +688,7 @@ theorem add_step (e : Enc) (b : SecBuf) (pos : List (BitVec 64)) (ns : List Spec
     simp only [str_len_eq (Spec.encodeNote e n).length (by omega), List.take_length]
     exact e1
   unfold Note.add
-  rw [encodeBuf_spec e n hf dp hd]
+  rw [encodeBuf_spec e n hf dp hd, NoteTie.add_start]
   simp only [bind, Except.bind, hstr, pure, Except.pure]
   refine ⟨b', pos ++ [b.size], rfl, ⟨Or.inl r, ?_, ?_⟩, c⟩
   · rw [v, hc, encodeNotes_append]
